@@ -101,10 +101,8 @@ def refPrefix : RExpr := .ite (.notNone .kwRoute) (.firstSeg .kwRoute) .none
 def refStatusTarget : RExpr :=
   .ite (.inPrefixes refPrefix) (.pfxSink refPrefix) (.ite (.inIds .kwTestId) (.idSink .kwTestId) .fallback)
 def refStatusRoute : RExpr :=
-  .ite (.inPrefixes refPrefix)
-    (.ite (.and (.notNone .kwRoute) (.truthy (.pfxConsume refPrefix)))
-      (.ite (.truthy (.dropSeg .kwRoute refPrefix)) (.dropSeg .kwRoute refPrefix) .none)
-      .kwRoute)
+  .ite (.and (.inPrefixes refPrefix) (.and (.notNone .kwRoute) (.truthy (.pfxConsume refPrefix))))
+    (.ite (.truthy (.dropSeg .kwRoute refPrefix)) (.dropSeg .kwRoute refPrefix) .none)
     .kwRoute
 
 /-! ### `startTestRun` / `stopTestRun` -/
